@@ -281,7 +281,16 @@ func (c *pipeCase) check(d int, pos int64, p []byte, who string) bool {
 }
 
 // reader returns (bytes read, saw EOF).
-func (c *pipeCase) reader(d int, rnd *rand.Rand) (int64, bool) {
+func (c *pipeCase) reader(d int, rnd *rand.Rand) (n int64, eof bool) {
+	defer func() {
+		if !eof {
+			c.doClose() // bailing out after a violation: do not leave the writer blocked on a full pipe
+		}
+	}()
+	return c.readLoop(d, rnd)
+}
+
+func (c *pipeCase) readLoop(d int, rnd *rand.Rand) (int64, bool) {
 	conn := c.cn[1-d]
 	if c.gatedDir == d {
 		<-c.gate
@@ -724,15 +733,15 @@ func TestC33(t *testing.T) {
 	r.Assume("an Accept may return an already closed conn whose Dial gave up because of a concurrent Close (Dial returned an error): the statement only constrains successful Dials (counted as skipped_accept_of_conn_whose_dial_gave_up)")
 	r.Assume("deadlines are perturbation only; the oracle never depends on whether a timeout fired, only that a timeout is reported when some deadline had been set")
 
-	nPipe := r.N(10_000, 800_000)
-	nLn := r.N(2_500, 200_000)
+	nPipe := r.N(10_000, 400_000)
+	nLn := r.N(2_500, 100_000)
 	total := nPipe + nLn
 	var hung, pipeNs, lnNs atomic.Int64
 	mon.Parallel(total, 0, func(i int) {
 		if !r.Want(i) || hung.Load() > 3 {
 			return
 		}
-		ok := mon.Watchdog(120*time.Second, func() {
+		ok := mon.Watchdog(60*time.Second, func() {
 			defer func() {
 				if p := recover(); p != nil {
 					r.Violation(i, "panic", fmt.Sprintf("panic: %v", p), map[string]any{"case": i})
@@ -750,7 +759,7 @@ func TestC33(t *testing.T) {
 		})
 		if !ok {
 			hung.Add(1)
-			r.Inconclusive(fmt.Sprintf("case %d did not finish within 120 s (goroutines abandoned)", i))
+			r.Inconclusive(fmt.Sprintf("case %d did not finish within 60 s (goroutines abandoned)", i))
 			r.Set(fmt.Sprintf("hang_stacks_case_%d", i), mon.Stacks())
 		}
 	})
